@@ -27,8 +27,8 @@ def main():
     checks, na, served = [], [], []
     for p in props:
         pid = p["id"]
-        if os.path.exists(os.path.join(VERIF, "rules", f"{pid}.py")):
-            m = load(pid)
+        m = load(pid) if os.path.exists(os.path.join(VERIF, "rules", f"{pid}.py")) else None
+        if m is not None and getattr(m, "CLAIMED", True):
             level = getattr(m, "LEVEL", "other")
             text = " ".join(getattr(m, "EXPLANATION", "").split())
             nd = " ".join(getattr(m, "NOT_DECIDED", "").split())
